@@ -349,6 +349,9 @@ pub struct Exec {
     pub completed: bool,
     /// clock counter before/after every operation
     pub tick_ranges: Vec<(u32, u32)>,
+    /// for a history that ends with Remount / DropRemount: (status byte at the mount of the session that was ended,
+    /// status byte right after the unmount / drop, before the volume is mounted again)
+    pub epoch_end_status: Option<(u8, u8)>,
     /// node id behind every file-handle slot after each operation (index = operation index)
     pub handle_nids: Vec<[Option<crate::model::Nid>; crate::model::NFH]>,
 }
@@ -1524,6 +1527,7 @@ pub fn run(cfg: &Cfg, ops: &[Op], plan: &Plan) -> Exec {
         completed: false,
         tick_ranges: Vec::new(),
         handle_nids: Vec::new(),
+        epoch_end_status: None,
     };
     let mut cx = RunCtx { cfg, ops, plan, st: st.clone(), ctr: ctr.clone(), ex };
     let mut i = 0usize;
@@ -1580,6 +1584,9 @@ pub fn run(cfg: &Cfg, ops: &[Op], plan: &Plan) -> Exec {
                         return cx.ex;
                     }
                     Ok(unm) => {
+                        if is_last && !matches!(cx.ops[idx], Op::Abandon) {
+                            cx.ex.epoch_end_status = Some((cx.ex.status_byte_at_mount, raw_status(&st.borrow())));
+                        }
                         // mount again (part of the same operation for fault purposes)
                         match guarded(|| mount(MemDev::new(st.clone()), cfg, &ctr)) {
                             Err(msg) => {
